@@ -113,6 +113,8 @@ pub struct SchedSpec {
     pub sync_check: bool,
     /// C13: at final quiescence the worker is alive and the active blob is below its limit
     pub liveness_check: bool,
+    /// background mode: separate the offset reservation of a write closure from its pwrite
+    pub split_write_jobs: bool,
 }
 
 impl SchedSpec {
@@ -136,6 +138,7 @@ impl SchedSpec {
             read_points: true,
             sync_check: false,
             liveness_check: false,
+            split_write_jobs: io_mode == IoMode::Background,
         }
     }
 }
@@ -817,6 +820,7 @@ pub fn ctl_config(spec: &SchedSpec) -> CtlConfig {
     cfg.clock_choices = spec.clock_choices;
     cfg.auto_clock = None;
     cfg.step_cap = 20_000;
+    cfg.split_write_jobs = spec.split_write_jobs;
     cfg
 }
 
